@@ -265,6 +265,8 @@ func checkC01(w *World, r *Report) {
 	importRules(w, r, checkC02, "C02", "C01.R5", func(o *Obligation) bool { return o.Rule == "C02.R2" || o.Rule == "C02.R3" || o.Rule == "C02.R1" || o.Rule == "C02.R7" })
 	// the PID a sender holds keeps naming the live actor: a refused duplicate spawn does not take over its registry entry
 	checkRegistryAdd(w, r, "C01.R5", a)
+	// what stands between the inbox and Receive is the actor's own middleware chain, not another actor's (C13.R4)
+	checkDefaultOptsFresh(w, r, "C01.R5")
 	// across a crash: the unprocessed rest of the batch is buffered from the cursor, unconditionally, and replayed first
 	importRules(w, r, checkC05, "C05", "C01.R5", func(o *Obligation) bool {
 		return o.Rule == "C05.R3" && strings.Contains(o.Key, "buffer-from-cursor") || o.Rule == "C05.R2" && (strings.Contains(o.Key, "replay-before-inbox") || strings.Contains(o.Key, "clears-replayed-buffer"))
@@ -598,6 +600,7 @@ func checkC09(w *World, r *Report) {
 	// be nil (a sender-less message, a nil target) panics inside the event stream, the event reaches nobody
 	r.Rule("C09.R8", "the Log methods of the events that report undeliverable messages use their *PID fields only through nil-safe methods or after a nil check", 1)
 	checkEventLogNilSafe(w, r, "C09.R8")
+	checkEventStreamNilSafe(w, r, "C09.R8")
 	r.Rule("C09.R7", "the event reaches the subscribers through inbox rings whose element transfers are sound (C14.R2-R5); a stopping actor is unregistered before any user code runs, so a send that finds it gone dead-letters (C10.R6)", 8)
 	importRules(w, r, checkC14, "C14", "C09.R7", func(o *Obligation) bool {
 		return o.Rule == "C14.R1" || o.Rule == "C14.R2" || o.Rule == "C14.R3" || o.Rule == "C14.R4" || o.Rule == "C14.R5"
@@ -723,6 +726,7 @@ func checkC10(w *World, r *Report) {
 
 	// R2
 	checkRegistryAdd(w, r, "C10.R2", a)
+	checkRemoveExact(w, r, "C10.R3", a)
 	// R3
 	{
 		var writers []string
@@ -973,7 +977,15 @@ func checkC10(w *World, r *Report) {
 				}
 			}
 		}
-		r.Check(okC, "C10.R5", "Context.GetPID:key", "Context.GetPID looks up its argument in the engine's registry", w.fnPos(cg), "Context.GetPID does not look up its id argument")
+		if okC {
+			// ... and answers from that lookup alone (no shortcut for ids it thinks it knows: its own id is unregistered
+			// from the Stopped handler on)
+			if okR, p := w.returnsOnly2(cg, "K:nil", "re:^call:Processer\\.PID\\(call:\\(\\*actor\\.Registry\\)\\.getByID\\(.*,P1\\)\\)$"); !okR {
+				okC = false
+				_ = p
+			}
+		}
+		r.Check(okC, "C10.R5", "Context.GetPID:key", "Context.GetPID looks up its argument in the engine's registry and returns what is registered there, or nil", w.fnPos(cg), "Context.GetPID does not look up its id argument, or answers from something else than the registry")
 		// getByID reads lookup[id]
 		okB := false
 		for _, in := range w.insOf(a.regGetByID) {
@@ -1290,7 +1302,7 @@ func checkC11(w *World, r *Report) {
 		})
 		// (C09.R1/R6: the local delivery step does nothing but deliver or publish one dead letter: it takes no lock of
 		// the registry across the hand-off and sends nothing back to the sender, which for a request is the response PID)
-		importRules(w, r, checkC15, "C15", "C11.R7", func(o *Obligation) bool { return o.Rule == "C15.R8" })
+		importRules(w, r, checkC15, "C15", "C11.R7", func(o *Obligation) bool { return o.Rule == "C15.R8" || o.Rule == "C15.R7" })
 	}
 	// R6: when Result returns, the response PID is gone: Registry.Remove deletes under the write lock before it returns
 	r.Rule("C11.R6", "Registry.Remove deletes the entry synchronously (under the lock, on every path, no goroutine)", 1)
@@ -1311,6 +1323,7 @@ func checkC11(w *World, r *Report) {
 		r.Check(g.AfterEntry(D) && !async, "C11.R6", fname(a.regRemove)+":synchronous", "Registry.Remove has deleted the entry when it returns", w.fnPos(a.regRemove),
 			"Remove can return before the entry is gone (conditional or deferred to a goroutine): after Result() the response PID still swallows a late reply instead of dead-lettering it, and a stopped actor's id is not free yet")
 	}
+	checkRemoveExact(w, r, "C11.R6", a)
 }
 
 // retPaths renders the results of the return at node x, resolving result spills
@@ -1505,6 +1518,7 @@ func checkC12(w *World, r *Report) {
 	r.Rule("C12.R7", "no event's Log method can panic in the event stream (the restarted stream would have lost every subscriber)", 1)
 	checkEventLogNilSafe(w, r, "C12.R7")
 	checkEventLogs(w, r, "C12.R7", nil)
+	checkEventStreamNilSafe(w, r, "C12.R7")
 	r.Rule("C12.R8", "package actor never subscribes or unsubscribes on an actor's behalf: a subscription ends only by the subscriber's own Unsubscribe", 1)
 	{
 		var callers []string
@@ -1526,7 +1540,11 @@ func checkC12(w *World, r *Report) {
 			fmt.Sprintf("%v: an unsubscribe that the library issues for a PID (e.g. when an actor stops) is keyed by address and id and can remove the subscription of a successor spawned under the same id", callers))
 	}
 	r.Rule("C12.R6", "a duplicate spawn is detected in one critical section with the insert, so that every duplicate publishes ActorDuplicateIdEvent (C10.R2)", 4)
-	importRules(w, r, checkC10, "C10", "C12.R6", func(o *Obligation) bool { return o.Rule == "C10.R2" })
+	importRules(w, r, checkC10, "C10", "C12.R6", func(o *Obligation) bool { return o.Rule == "C10.R2" || o.Rule == "C10.R8" })
+	// an event that was accepted into the event stream's or a subscriber's inbox wakes that inbox up (C03.R1-R3, R7)
+	importRules(w, r, checkC03, "C03", "C12.R5", func(o *Obligation) bool {
+		return o.Rule == "C03.R1" || o.Rule == "C03.R2" || o.Rule == "C03.R3" || (o.Rule == "C03.R7" && strings.Contains(o.Key, "idle-writers"))
+	})
 	importRules(w, r, checkC01, "C01", "C12.R5", func(o *Obligation) bool { return o.Rule == "C01.R4" })
 	// (and across a restart: the unprocessed rest of the batch is replayed before newer messages are taken)
 	importRules(w, r, checkC05, "C05", "C12.R5", func(o *Obligation) bool {
@@ -1913,4 +1931,97 @@ func checkEventLogs(w *World, r *Report, rule string, only []string) {
 	if nChecked == 0 && len(want) > 0 {
 		r.OK(rule, "events:Log:cannot-panic", "the events in question have no Log method", "-")
 	}
+}
+
+// checkRemoveExact: Remove(pid) removes the entry of pid.ID and nothing else: one delete per call, keyed by the id of the
+// PID given (no sweep over "related" ids: ids are opaque strings, two unrelated actors may share a prefix).
+func checkRemoveExact(w *World, r *Report, rule string, a *sendAnchors) {
+	g := w.FGI(a.regRemove)
+	D := make([]bool, len(g.ins))
+	okK := true
+	var other []string
+	for i, in := range g.ins {
+		c, ok := in.(*ssa.Call)
+		if !ok {
+			continue
+		}
+		if args, isD := isBuiltinCall(c, "delete"); isD && strings.HasSuffix(w.pathOf(args[0]), ".lookup") {
+			D[i] = true
+			if kp := w.pathOf(args[1]); kp != "P1.ID" && kp != "call:(*actor.PID).GetID(P1)" {
+				okK = false
+				other = append(other, kp+" at "+w.pos(c.Pos()))
+			}
+		}
+		if args, isC := isBuiltinCall(c, "clear"); isC && strings.HasSuffix(w.pathOf(args[0]), ".lookup") {
+			okK = false
+			other = append(other, "clear at "+w.pos(c.Pos()))
+		}
+	}
+	once, _ := g.AtMostOnce(D)
+	r.Check(okK && once && anyOf(D), rule, fname(a.regRemove)+":only-that-entry", "Registry.Remove deletes exactly the entry of the given PID's id (one delete per call, no other key)", w.fnPos(a.regRemove),
+		fmt.Sprintf("Remove also deletes other entries %v (or deletes in a loop): a live actor whose id merely resembles the removed one loses its registration", other))
+}
+
+// checkEventStreamNilSafe: Subscribe(nil) / Unsubscribe(nil) reach the event stream as eventSub{nil} / eventUnsub{nil}.
+// The PID a subscription message carries is used only through nil-safe methods, after a nil test, or as a plain value
+// (stored, compared, forwarded to a callee that does not dereference it). A panic here restarts the event stream with
+// an empty subscriber table: every subscription is lost.
+func checkEventStreamNilSafe(w *World, r *Report, rule string) {
+	es := w.Method("actor", "eventStream", "Receive")
+	if es == nil {
+		r.Unknown(rule, "eventStream.Receive:nil-pid", "the event stream tolerates a nil PID in (un)subscriptions", "-", "eventStream.Receive not found")
+		return
+	}
+	g := w.FGFlat(es)
+	ok := true
+	detail := ""
+	for i, in := range g.ins {
+		if g.inl != nil && g.inl[i] {
+			continue
+		}
+		var recvV ssa.Value
+		var callee *ssa.Function
+		argIdx := -1
+		switch x := in.(type) {
+		case *ssa.Call:
+			if cal := x.Call.StaticCallee(); cal != nil {
+				for ai, av := range x.Call.Args {
+					if isPIDPtr(av.Type()) && strings.Contains(w.pathOf(av), ".pid") {
+						recvV, callee, argIdx = av, cal, ai
+					}
+				}
+			}
+		case *ssa.FieldAddr:
+			if isPIDPtr(x.X.Type()) && strings.Contains(w.pathOf(x.X), ".pid") {
+				recvV = x.X
+			}
+		}
+		if recvV == nil || w.nonNilAt(g, i, recvV) {
+			continue
+		}
+		if callee != nil {
+			if !w.inMod[callee] && !w.inMod[origin(callee)] {
+				continue
+			}
+			if w.derefsParam(callee, argIdx, 0, map[string]bool{}) == nil {
+				continue
+			}
+		}
+		ok = false
+		what := "a field access"
+		if callee != nil {
+			what = fname(callee)
+		}
+		detail = w.pathOf(recvV) + " reaches " + what + " at " + w.pos(in.Pos()) + " without a nil test: Subscribe(nil) / Unsubscribe(nil) crash the event stream, which restarts without its subscribers"
+	}
+	r.Check(ok, rule, "eventStream.Receive:nil-pid", "the PID of a subscription message is only used nil-safely", w.fnPos(es), detail)
+}
+
+func isPIDPtr(t types.Type) bool {
+	pt, ok := t.Underlying().(*types.Pointer)
+	if !ok {
+		return false
+	}
+	n, _ := pt.Elem().(*types.Named)
+	return n != nil && n.Obj().Name() == "PID"
 }
